@@ -52,6 +52,31 @@ EXPECT = {"kill": ("kill", (9,)), "terminate": ("kill", (15,)), "suspend": ("kil
           "aff0": ("affinity_set", ((0,),)), "affall": ("affinity_set", ((0, 1),)), "sig65": ("kill", (65,))}
 
 
+_SUB = {}
+
+
+def _subclass(ps):
+    if ps not in _SUB:
+        class MyProcess(ps.Process):
+            """an application's own subclass"""
+
+            def describe(self):
+                return "%s/%s" % (self.pid, self.name())
+        _SUB[ps] = MyProcess
+    return _SUB[ps]
+
+
+class _Unrelated:
+    """something with a pid that is not a Process"""
+
+    def __init__(self, pid):
+        self.pid = pid
+        self._ident = (pid, None)
+
+    def __repr__(self):
+        return "<unrelated object with pid %d>" % self.pid
+
+
 def _norm(x):
     if isinstance(x, (tuple, list)):
         return [_norm(y) for y in x]
@@ -236,7 +261,9 @@ class Exec:
         elif k == "new":
             pid = c.pid[ev[1]]
             owner = w.owner_uid(pid)
-            out = outcome(mk_popen if c.popen else ps.Process, *((ps, pid) if c.popen else (pid,)))
+            # (every second held object is an instance of a trivial subclass: identity is a matter of pid and creation time)
+            ctor = ps.Process if len(self.objs) % 2 == 0 else _subclass(ps)
+            out = outcome(mk_popen if c.popen else ctor, *((ps, pid) if c.popen else (pid,)))
             if out[0] == "ok":
                 if owner is None:
                     self.viol("ctor-on-absent-pid", "Process(%d) succeeded for an unlisted pid" % pid)
@@ -379,6 +406,11 @@ class Exec:
             return       # identity under permission faults is outside C02's quantifier (see C03's known finding)
         objs = self.objs
         for i, o in enumerate(objs):
+            # objects of other types are simply not equal (no exception, whichever side they stand on)
+            for other in (None, o.pid, (o.pid, o._ident[1]), "x", _Unrelated(o.pid)):
+                r = outcome(lambda: (o == other, other == o, o != other, other != o))
+                if r != ("ok", (False, False, True, True)):
+                    self.viol("eq-with-another-type", "Process == %r -> %r" % (other, r))
             h = outcome(hash, o)
             if h[0] != "ok":
                 self.viol("hash-raised", "hash() raised %r" % (h,))
